@@ -455,6 +455,7 @@ class NutsRun:
         fs = core.SimFS(ctx)
         fs.install()
         self.da = None
+        cur_sc = sc
         for op in self.case["ops"]:
             k = op["op"]
             ctx.log("op", k, op.get("n"))
@@ -512,6 +513,25 @@ class NutsRun:
                                           ("current_target_grad", s.current_target_grad, refs["ref_grad"](x))):
                         if not close(np.asarray(val, float), np.asarray(rf, float), 1e-8):
                             ctx.violate(PROP, "cache_coherence", o.sig(cache=name, history=o.history), cached=val, reference=rf)
+            elif k == "retarget_other":
+                # the sampler is pointed at ANOTHER target and re-initialised (same start value)
+                sc2 = dict(cur_sc, target=dict(cur_sc["target"], zseed=cur_sc["target"]["zseed"] + 101,
+                                                kind=cur_sc["target"]["kind"] if cur_sc["target"]["kind"] != "post" else "quartic"))
+                cur_sc = sc2
+                t2, info2 = zoo.build_exp_target(ctx, sc2)
+                info2["logd"].trace = []
+                with core.setup_stream(self.setup_seed + 3):
+                    s.target = t2
+                    s.reinitialize()
+                refs.update(ref_logd=info2["ref_logd"], ref_grad=info2["ref_grad"], p_logd=info2["logd"])
+                self.arm_faults(info2["logd"], o)
+                o.history = "after_retarget_other"
+                ctx.fault("retarget_to_another_target")
+                x = as_vec(s.current_point)
+                for name, val, rf in (("current_target_logd", s.current_target_logd, refs["ref_logd"](x)),
+                                      ("current_target_grad", s.current_target_grad, refs["ref_grad"](x))):
+                    if not close(np.asarray(val, float), np.asarray(rf, float), 1e-8):
+                        ctx.violate(PROP, "cache_coherence", o.sig(cache=name, history=o.history), cached=val, reference=rf)
             elif k == "retarget":
                 # the public target setter on an initialised sampler (what a Gibbs orchestrator does): the cached
                 # log-density and gradient must still belong to the current point
@@ -526,7 +546,7 @@ class NutsRun:
             elif k == "reload":
                 s.save_checkpoint("ck")
                 with core.setup_stream(self.setup_seed + 1):
-                    s2, info2 = zoo.build_exp_sampler(ctx, sc, callback=cb)
+                    s2, info2 = zoo.build_exp_sampler(ctx, cur_sc, callback=cb)
                     s2.load_checkpoint("ck")
                 info2["logd"].trace = []
                 refs["p_logd"] = info2["logd"]
@@ -643,8 +663,10 @@ def gen_case(r, tier):
                 ops.append({"op": "warmup", "n": r.randint(1, 25)})
             elif x < 0.90:
                 ops.append({"op": "reload"})
-            elif x < 0.95:
+            elif x < 0.93:
                 ops.append({"op": "retarget"})
+            elif x < 0.96:
+                ops.append({"op": "retarget_other"})
             else:
                 ops.append({"op": "interrupt", "j": r.randint(0, 25), "n": r.randint(1, 4)})
         if r.random() < 0.15:
@@ -652,10 +674,12 @@ def gen_case(r, tier):
         if r.random() < 0.15:
             ops = [{"op": "sample", "n": r.randint(1, 6)}, {"op": "snapshot"}, {"op": "sample", "n": r.randint(2, 8)},
                    {"op": "rollback"}] + ops
-        if not any(o["op"] in ("sample", "warmup") for o in ops) or ops[-1]["op"] in ("reload", "retarget", "rollback", "interrupt"):
+        if not any(o["op"] in ("sample", "warmup") for o in ops) or ops[-1]["op"] in ("reload", "retarget", "retarget_other", "rollback", "interrupt"):
             ops.append({"op": "sample", "n": r.randint(1, 8)})
     else:
         adapt = r.choice([True, False, 0.05, 0.3, 0.9, 2.5])
+        if r.random() < 0.1:
+            ip = [int(round(3 * v)) for v in ip]         # an integer-typed start vector
         sc["knobs"] = {"max_depth": maxd, "adapt_step_size": adapt, "x0": ip}
         Nb = r.randint(1, 10) if adapt is True else r.choice([0, 0, 3])
         ops = [{"op": "sample", "N": r.randint(2, 14), "Nb": Nb}]
